@@ -11,6 +11,7 @@ import (
 	"sync/atomic"
 	"time"
 
+	"verif/harness/vclient"
 	"verif/harness/vk"
 	"verif/harness/vsrv"
 )
@@ -583,10 +584,25 @@ func flipHTTP(a api, batch uint64, idx int) {
 	K := 2 + r.IntN(5)
 	A := 8 + r.IntN(16)
 	replay := map[string]any{"phase": "e2e", "batch": batch, "scenario": idx, "part": "constant-size", "writers": K}
-	initial := "init-00000"
+	initial := "init-0000"
 	if err := a.srv.WriteGroup(g, map[string]any{"comment": initial, "users": map[string]any{"keeper": map[string]any{"password": "k", "permissions": "op"}}}); err != nil {
 		run.Inconclusive("cannot write the group: " + err.Error())
 		return
+	}
+	// the group is LIVE in the server (a member is in it), so that the server works from its
+	// cached copy of the definition and has to notice every rewrite
+	if idx%2 == 0 {
+		// (first let the server write the file itself once, so that the cached copy has the
+		// size every later version will have)
+		if st, hd, body, err := a.do("GET", apiRoot+g, nil, nil); err == nil && st == 200 {
+			a.do("PUT", apiRoot+g, map[string]string{"If-Match": hd.Get("ETag")}, body)
+		}
+		if c, err := vclient.Dial(a.srv, fmt.Sprintf("flipmember-%d-%d", batch, idx)); err == nil {
+			defer c.Close()
+			if m, ok := c.Join(g, "keeper", "k"); ok && m.Str("kind") == "join" {
+				run.Count("constant_size_cases_on_a_live_group", 1)
+			}
+		}
 	}
 	file := a.srv.GroupFile(g)
 	type stamp struct{ ns, size int64 }
@@ -604,6 +620,7 @@ func flipHTTP(a api, batch uint64, idx int) {
 	var mu sync.Mutex
 	var recs []rec
 	var tooCoarse atomic.Bool
+	var stale atomic.Value
 	var wg sync.WaitGroup
 	start := make(chan struct{})
 	path := apiRoot + g
@@ -640,6 +657,20 @@ func flipHTTP(a api, batch uint64, idx int) {
 				if s3, ok3 := stat(); ok2xx(st) && ok3 && s3 == s2 {
 					tooCoarse.Store(true)
 				}
+				if ok2xx(st) {
+					// read your write: the value this writer replaced was unique and is gone
+					// for good; a GET after the acknowledgement must not bring it back
+					if st2, _, b2, err2 := a.do("GET", path, nil, nil); err2 == nil && st2 == 200 {
+						var after map[string]any
+						if json.Unmarshal(b2, &after) == nil {
+							if got, _ := after["comment"].(string); got == read {
+								stale.Store(fmt.Sprintf("the PUT replacing comment %q by %q was acknowledged (%d); a GET afterwards still returns %q", read, id, st, got))
+							} else {
+								run.Count("reads_after_acknowledged_writes_fresh", 1)
+							}
+						}
+					}
+				}
 				mu.Lock()
 				recs = append(recs, rec{read, id, ok2xx(st)})
 				mu.Unlock()
@@ -651,6 +682,10 @@ func flipHTTP(a api, batch uint64, idx int) {
 	run.Eval(int64(len(recs)))
 	if tooCoarse.Load() {
 		run.Count("constant_size_cases_discarded", 1)
+		return
+	}
+	if w, _ := stale.Load().(string); w != "" {
+		run.Violation("stale-definition-served-after-acknowledged-write:constant-size", w+" (the versions have the same size and differ in modification time only)", replay)
 		return
 	}
 	fin, present, rerr := rawRead(file)
